@@ -87,12 +87,19 @@ def run(ctx: Ctx) -> int:
     shards, findings, infos, samples = {}, [], {}, []
     distinct = set()
     cases = 0
-    for pi, (job, variant) in enumerate(ec.job_schedule(ctx, n_plans)):
+    schedule = ec.job_schedule(ctx, n_plans)
+    plans = []
+    for (job, variant) in schedule[:(24 if ctx.thorough else 6)]:        # boundary plans first: they are short
+        for lines in simenv.boundary_plans(ctx.rng, job, variant, 4 if ctx.thorough else 2):
+            plans.append((job, variant, lines, True))
+    for (job, variant) in schedule:
+        n = ctx.rng.randint(6, 16)
+        plans.append((job, variant, simenv.random_plan(ctx.rng, job, variant, n), False))
+    for pi, (job, variant, lines, boundary) in enumerate(plans):
         if not budget.ok():
             break
-        n = ctx.rng.randint(6, 16)
-        lines = simenv.random_plan(ctx.rng, job, variant, n)
-        if ctx.thorough:
+        n = len(lines)
+        if ctx.thorough or boundary:
             cuts = list(range(0, n + 1))
         else:
             # boundary-directed: cuts right before a RESOLVE / KEYDOWNSTOP (pending delay or key-down in flight),
@@ -129,7 +136,9 @@ def run(ctx: Ctx) -> int:
         "evaluations": cases, "distinct_nontrivial": len(distinct), "samples": samples,
         "traces_validated_against_impl": len(res),
         "rule": "random mostly-valid plans (CAST/USE/ELAPSE/RESOLVE/KEYDOWNSTOP/!debug, casts often followed by their RESOLVE/"
-                "KEYDOWNSTOP) on rotating jobs x 3 environments; every cut (thorough) or 4 cuts per plan; logs passed in memory and "
+                "KEYDOWNSTOP) on rotating jobs x 3 environments; every cut (thorough) or 4 cuts per plan; plus short boundary plans "
+                "(pending action, then console / zero elapse / other skill, then the RESOLVE or KEYDOWNSTOP that reads the pending "
+                "events) cut at EVERY position; logs passed in memory and "
                 "through JSON alternately; distinct = distinct (job, env, plan, cut, transport)",
         "correspondence": {"scenarios": len(res), "differences": len(diffs),
                            "plays_recorded": sum(i["plays"] for i in infos.values())},
